@@ -347,18 +347,21 @@ def annotate_file(src, fspec, relfile):
                         raise AnchorLost("%s: `%s`: malformed for loop %d" % (relfile, fs.path, n))
                     pat = src[toks[lp.kw_tok + 1].start:toks[k_in - 1].end]
                     expr = src[toks[k_in + 1].start:toks[lp.open - 1].end]
+                    # block lines starting with `init:` run right after the iterator is created, the others at `None`
+                    init_hook = " ".join(l.strip()[5:] for l in lines if l.strip().startswith("init:"))
+                    lines = [l for l in lines if not l.strip().startswith("init:")]
                     if enum:
                         m_ = re.match(r"^\(\s*(\w+)\s*,\s*(\w+)\s*\)$", pat)
                         if not m_ or not expr.rstrip().endswith(".enumerate()"):
                             raise AnchorLost("%s: `%s`: loop %d is not `for (i, x) in e.enumerate()`" % (relfile, fs.path, n))
                         ivar, pat = m_.group(1), m_.group(2)
                         expr = expr.rstrip()[:-len(".enumerate()")]
-                        repls.append((toks[lp.kw_tok].start, toks[lp.open].start, "{ let mut it_%d = %s; let mut cnt_%d: usize = 0; loop " % (n, expr, n)))
+                        repls.append((toks[lp.kw_tok].start, toks[lp.open].start, "{ let mut it_%d = %s; let mut cnt_%d: usize = 0; %s loop " % (n, expr, n, init_hook)))
                         hook = "\n".join(lines)
                         ins(toks[lp.open].start, "{ let ghost old_it_%d = it_%d; match it_%d.next() { None => { %s break; }, Some(%s) => { let %s = cnt_%d; cnt_%d = cnt_%d + 1; " % (n, n, n, hook, pat, ivar, n, n, n), order=3)
                         ins(toks[lp.close].end, " } } } }", order=-3)
                     else:
-                        repls.append((toks[lp.kw_tok].start, toks[lp.open].start, "{ let mut it_%d = %s; loop " % (n, expr)))
+                        repls.append((toks[lp.kw_tok].start, toks[lp.open].start, "{ let mut it_%d = %s; %s loop " % (n, expr, init_hook)))
                         hook = "\n".join(lines)
                         ins(toks[lp.open].start, "{ let ghost old_it_%d = it_%d; match it_%d.next() { None => { %s break; }, Some(%s) => " % (n, n, n, hook, pat), order=3)
                         ins(toks[lp.close].end, " } } }", order=-3)
